@@ -29,7 +29,7 @@ REPO = Path(os.environ.get("VERIF_REPO", "/repo"))
 ALLOWED_AXIOMS = {"propext", "Classical.choice", "Quot.sound"}
 FLAG = {"GOOD": ".good", "UNKNOWN": ".unknown", "SUSPECT": ".suspect", "FAIL": ".fail", "MISSING": ".missing"}
 PYOP = {"add": ".add", "sub": ".sub", "mul": ".mul", "truediv": ".truediv", "pow": ".pow"}
-PIN_PROPS = {"C01": ["flag_codes"], "C04": ["flag_codes", "priorities", "src_qartod_compare"], "C19": ["cf_safe", "src_save"], "C20": ["fx_ops"], "C08": ["src_climatology_test"], "C07": ["config_layout", "src_ContextConfig_calls"], "C05": ["window_ops", "src_Call_run"], "C18": ["src_Call_run"], "C06": ["src_collect_results_dict"],
+PIN_PROPS = {"C01": ["flag_codes"], "C04": ["flag_codes", "priorities", "src_qartod_compare"], "C19": ["cf_safe", "src_save"], "C20": ["fx_ops", "src_eval_fx"], "C08": ["src_climatology_test"], "C07": ["config_layout", "src_ContextConfig_calls"], "C05": ["window_ops", "src_Call_run"], "C18": ["src_Call_run"], "C06": ["src_collect_results_dict"],
              "C03": ["defaults_valid", "src_gross_range_test", "src_valid_range_test"], "C09": ["default_spike", "src_spike_test"],
              "C11": ["default_flat", "src_flat_line_test"], "C12": ["default_atten", "src_attenuated_signal_test"], "C14": ["default_location", "src_location_test"],
              "C10": ["src_rate_of_change_test", "src_speed_test"], "C13": ["src_density_inversion_test", "src_pressure_increasing_test"]}
@@ -72,6 +72,10 @@ SRC_FUNCS = {
                             "knownMod known c"),
     "valid_range_test": ("IoosQc.NpSrc.C03_src_valid", "(inp : List V) (span : V × V) (si ei : Bool) (junk : List Np.Fl)",
                          "IoosQc.Gen.valid_range_test inp span si ei junk = validRange span.1 span.2 si ei inp", "inp span si ei junk"),
+    "eval_fx": ("IoosQc.NpFx.C20_src_history",
+                "(pf : String → Option Rat) (st : Stats) (exprStack : List IoosQc.NpFx.SE) (pre : List Tok) (e : Expr) "
+                "(h : IoosQc.NpFx.Stands pf exprStack (pre ++ e.compile))",
+                "IoosQc.Gen.eval_fx pf st.get exprStack = IoosQc.NpFx.ofOpt (e.eval st)", "pf st exprStack pre e h"),
 }
 
 
@@ -344,7 +348,7 @@ def lean_for(table: str, val) -> tuple[str, str]:
     if table.startswith("src_"):
         fn = table[4:]
         thm, binders, stmt, args = SRC_FUNCS[fn]
-        return ("namespace IoosQc.Gen\nopen IoosQc.Np\nopen IoosQc.NpSrc (Axes setCol dotted CR TR DKey DState dhas dget dset emptyLikeFilled streamsOf)\n" + val + "end IoosQc.Gen\n"
+        return ("namespace IoosQc.Gen\nopen IoosQc.Np\nopen IoosQc.NpSrc (Axes setCol dotted CR TR DKey DState dhas dget dset emptyLikeFilled streamsOf)\nopen IoosQc.NpFx (SE FxErr FxR Op2 pop untuple strIn lookupOp alpha0 fromFloat tie)\n" + val + "end IoosQc.Gen\n"
                 f"theorem src_{fn}_same : @IoosQc.Gen.{fn} = @IoosQc.NpSrc.{fn} := rfl\n"
                 f"theorem src_{fn} {binders} : {stmt} := by\n  rw [src_{fn}_same]; exact {thm} {args}\n", f"src_{fn}")
     if table == "window_ops":
@@ -388,7 +392,7 @@ def lean_for(table: str, val) -> tuple[str, str]:
 def _kernel_check(prop: str, tag: str, parts, finals) -> dict:
     """Write the generated Lean file, let the kernel check it (cached by content), return status / axioms / log."""
     text = ("/- generated by harness/extract.py from the current source of ioos_qc; checked with `lake env lean` -/\n"
-            "import IoosQc.Theorems.SourcePin\nimport IoosQc.Theorems.NpSrc\nimport IoosQc.Theorems.NpSrc2\nimport IoosQc.Theorems.NpSrc3\nimport IoosQc.Theorems.NpSrc4\nimport IoosQc.Theorems.NpSrc5\nimport IoosQc.Theorems.NpSrc6\nimport IoosQc.Theorems.NpSrc7\nimport IoosQc.Theorems.NpSrc8\nimport IoosQc.Theorems.NpSrc9\nimport IoosQc.Theorems.NpSrc10\nopen IoosQc\n\n" + "\n".join(parts) + "\n"
+            "import IoosQc.Theorems.SourcePin\nimport IoosQc.Theorems.NpSrc\nimport IoosQc.Theorems.NpSrc2\nimport IoosQc.Theorems.NpSrc3\nimport IoosQc.Theorems.NpSrc4\nimport IoosQc.Theorems.NpSrc5\nimport IoosQc.Theorems.NpSrc6\nimport IoosQc.Theorems.NpSrc7\nimport IoosQc.Theorems.NpSrc8\nimport IoosQc.Theorems.NpSrc9\nimport IoosQc.Theorems.NpSrc10\nimport IoosQc.Theorems.NpSrc11\nopen IoosQc\n\n" + "\n".join(parts) + "\n"
             + "".join(f"#print axioms {f}\n" for f in finals))
     sha = hashlib.sha1(text.encode()).hexdigest()[:16]
     # the key also covers the compiled libraries the file is checked against
@@ -398,7 +402,8 @@ def _kernel_check(prop: str, tag: str, parts, finals) -> dict:
                               LEAN / ".lake/build/lib/lean/IoosQc/Theorems/NpSrc4.olean", LEAN / ".lake/build/lib/lean/IoosQc/Theorems/NpSrc5.olean",
                               LEAN / ".lake/build/lib/lean/IoosQc/Theorems/NpSrc6.olean", LEAN / ".lake/build/lib/lean/IoosQc/Theorems/NpSrc7.olean",
                               LEAN / ".lake/build/lib/lean/IoosQc/Theorems/NpSrc8.olean", LEAN / ".lake/build/lib/lean/IoosQc/Theorems/NpSrc9.olean",
-                              LEAN / ".lake/build/lib/lean/IoosQc/Theorems/NpSrc10.olean"))
+                              LEAN / ".lake/build/lib/lean/IoosQc/Theorems/NpSrc10.olean",
+                              LEAN / ".lake/build/lib/lean/IoosQc/Theorems/NpSrc11.olean"))
     d = LEAN / ".lake" / "pins"
     d.mkdir(parents=True, exist_ok=True)
     f = d / f"{prop}{tag}_{sha}.lean"
